@@ -40,6 +40,9 @@ function genGroup(rng, k, kind = 'std') {
     // several distinct names wherever the compiler collects names into a set or map before emitting them
     src += `<c generic:g1="x" generic:g2="y" generic:g3="z"><d slot:item slot:index slot:extra slot:aa slot:bb slot:cc="k">{{item}}{{index}}{{extra}}{{aa}}{{bb}}{{k}}</d><e slot:zz slot:aa>{{zz}}{{aa}}</e></c>`
     src += `<template name="n1"><i1/></template><template name="n2"><i2/></template><template name="n3"><i3/></template><template name="n0"><i0/></template><template is="n2"/>`
+    // entity spellings that are in no table, next to ones that are (what an unknown name decodes to - itself - must not
+    // depend on the iteration order of a table)
+    src += `<ent title="&EACUTE;&ALPHA;&nbsp;&NBSP;&Copy;&oMEGA;&lt;&LT;">&DELTA;&AACUTE;&amp;&THETA;&Ouml;&OUML;&Prime;&PRIME;&dagger;&DAGGER;</ent>`
     if (kind === 'std') src += `<wxs module="w${i}" src="/s/${i}"/><wxs module="v${i}" src="/s/${(i + 1) % k}"/>{{w${i}.v}}{{v${i}.v}}`
     // (the last file ends with an inline module no expression refers to: it can also be supplied through
     //  set_inline_script_content after the file was added without it)
@@ -48,6 +51,11 @@ function genGroup(rng, k, kind = 'std') {
     if (i > 1) src = `<import src="/${PATHS[i - 2]}"/>` + src
     files.push([path, src])
     if (kind === 'std') scripts.push(['s/' + i, `exports.v = ${i}`])
+  }
+  // two spellings of one location are two files of the group (keys are the paths as given): the group is still one set
+  if (k >= 2 && k < 6 && rng.bool(0.5)) {
+    files.push(['./' + PATHS[0], `<alias a="{{q1}}" b="{{q2}}">{{q3}}</alias><template name="n1"><j1/></template>`])
+    if (kind === 'std') scripts.push(['./s/0', 'exports.v = "alias"'])
   }
   return { files, scripts, kind }
 }
